@@ -96,12 +96,14 @@ EVAL_REL = {
     # C03 back ends agree with each other (and with the specification's outcome and log)
     "C03": per_backend("value", "log", "failclass", "nofail", "accept") | {"agree", "total"},
     # C04 documented results
-    "C04": per_backend("value") | {"front"},
+    "C04": per_backend("value", "render") | {"front"},
     # C05 accept exactly the well-typed programs, infer the rule's type, reject at compile time
     "C05": per_backend("accept", "value") | {"accept", "type"},   # value: WHICH overload a call resolved to
     # C06 laziness and order: host-call log and outcome
     "C06": per_backend("log", "value", "failclass", "nofail"),
     "C13": {"stdout"},
+    # C18: ==, rendering, key identity and set membership agree; canonical rendering
+    "C18": per_backend("sameness", "render", "value", "nofail") | {"agree"},
     "C16": per_backend("accept", "value", "failclass", "nofail", "nofault", "hastype") | {"accept", "total"},
 }
 
@@ -167,6 +169,8 @@ eval_prop("C04", [BI1], [BI2, PARTIAL, U1F])
 eval_prop("C05", [U1S, OVER], [U1F, U2, OPT, OBJS, OVER])
 eval_prop("C06", [LAZY, PARTIAL], [LAZY, PARTIAL, U1F, U2])
 eval_prop("C16", [OPT], [OPT, U1F])
+SAME = G + ("same", 1)
+eval_prop("C18", [SAME], [SAME, BI2, OBJS])
 
 
 # ---------------------------------------------------------------------------- bytecode back end (C03, C11)
@@ -382,3 +386,31 @@ PROPS["C12"] = c12
 REPLAY["C12"] = ("api", "Trace_Api", API_REL["C12"])
 api_prop("C07", [GA + ("pairs", 0)], [GA + ("pairs", 1), GA + ("hist", 3)])
 api_prop("C13", [GA + ("hist", 3), GA + ("total", 0)], [GA + ("hist", 4), GA + ("total", 0), GA + ("pairs", 1)])
+
+
+# ---------------------------------------------------------------------------- host-data conversion (C15, C16 host part)
+def conv_stage(run, pid, rel=None):
+    base = 0
+    for mode in ("singles", "pairs"):
+        cases, n = run.generate("Gen_Conv", "Gen_Conv.cfg", mode=mode, size=0, idbase=base)
+        base += n
+        obs = run.replay("conv", cases=cases, name="conv_" + mode)
+        verdicts = run.validate("Trace_Conv", obs)
+        run.triage("conv", "Trace_Conv", obs, verdicts, rel, key=lambda r: json.dumps([r.get("a"), r.get("b")], sort_keys=True),
+                   nontrivial=lambda r: r["a"]["t"]["g"] in ("ptr", "slice", "array", "map", "struct", "iface"))
+
+
+CONV_RULE = ("cases: TLC enumerates descriptors of Go values (13 scalars x 36 one-level constructions, x 6 second-level wrappers, special "
+             "cases: nesting depth 99..102, tags, zones; pairs of values of one struct type in every nil / tagged combination); the harness "
+             "builds each with reflect and calls conv.ValOf / conv.TypeOf, and for pairs compiles against the first and invokes with the "
+             "second; TLC compares with ConvVal / TypeOfGo and re-evaluates well-formedness and value/type agreement on the observed value. "
+             "distinct = distinct descriptors; non-trivial = composite at top level")
+
+
+@prop("C15", "conv", "Trace_Conv", None)
+def c15(tier, seed):
+    run = Run("C15", tier, seed)
+    conv_stage(run, "C15")
+    run.bounds = dict(singles="scalars, one- and two-level constructions, specials", pairs="struct pairs")
+    return finish(run, "model_checking", CONV_RULE, assumptions=["TLC's evaluation of the TLA+ operators is trusted",
+                  "Go map iteration order is not controlled: mixed-type maps are rejected whichever entry comes first"])
